@@ -8,7 +8,7 @@ PROP = {
     "jobs": [
         job("authgate", "core", "./internal/integration_tests/", "integration_tests",
             [KIT, "harness/core/internal/integration_tests/c01_test.go"], "^TestVerifC01",
-            ["c01-auth-gate", "c01-concurrent-auth", "c01-generations"], race=False, timeout_quick=300, timeout_thorough=3600),
+            ["c01-auth-gate", "c01-concurrent-auth", "c01-generations", "c01-slow-auth"], race=False, timeout_quick=300, timeout_thorough=3600),
     ],
     "min_events": 200,
     "rule": ("PRNG scripts over 2..6 concurrent raw connections to one real server (virtual time, one-way latency "
@@ -25,7 +25,10 @@ PROP = {
              "one Connect event, nothing proxied before it. generations (bubble, GOMAXPROCS(1)): 3..6 rounds on one server, "
              "each: 1..3 connections authenticate, proxy and close; after they are gone 1..3 fresh connections that never "
              "authenticate fire streams, a datagram and a rejected auth — state left over from (or recycled after) an "
-             "ended authenticated connection must authorise nothing. Non-trivial = script mixes auth actions with proxy actions; distinct = "
+             "ended authenticated connection must authorise nothing. slow-auth (bubble): the authenticator takes 6/11/21 virtual "
+             "seconds to decide 1..3 connections (accept or reject); after those verdicts 12..27 fresh connections present rejected "
+             "credentials one after the other, each followed by a 0x401 stream and a datagram: a verdict reached for one connection must "
+             "never be handed to another (no 233, no socket, no payload). Non-trivial = script mixes auth actions with proxy actions; distinct = "
              "distinct script."),
     "assumptions": [
         "absence is observed until virtual quiescence plus 1 s virtual settle",
